@@ -11,10 +11,11 @@ def U(uname, entry, enforce=None, reach=(), **kw):
     return d
 
 
-UNITS = [U("layout", "h_layout"), U("layout", "h_layout", defs=["NV_HASHSET"], name="HashSet.layout", funcs=[])]
-for kind, cap in (("HashMap", 1), ("HashMap", 3), ("HashSet", 1), ("HashSet", 3)):
+UNITS = [U("layout", "h_layout"), U("layout", "h_layout", defs=["NV_HASHSET"], name="HashSet.layout", funcs=[]),
+         U("layout", "h_layout", defs=["NV_POOLMAP"], name="PoolMap.layout", funcs=[])]
+for kind, cap in (("HashMap", 1), ("HashMap", 3), ("HashSet", 1), ("HashSet", 3), ("PoolMap", 1), ("PoolMap", 3)):
     tag = "@cap%d" % cap
-    KD = ["NV_HASHSET"] if kind == "HashSet" else []
+    KD = {"HashSet": ["NV_HASHSET"], "PoolMap": ["NV_POOLMAP"]}.get(kind, [])
     PFX = kind + "."
     UNITS += [
         U("insert" + tag, "h_insert", "w_HashMap_insert", ["insert.collide", "insert.new_block", "insert.existing"],
@@ -26,7 +27,7 @@ for kind, cap in (("HashMap", 1), ("HashMap", 3), ("HashSet", 1), ("HashSet", 3)
     ]
 TRUSTED = ["cbmc 6.11.0 / goto-instrument DFCC / CaDiCaL", "goto-cc C++ front end; HashMap.hpp with compat rule R1, -DNDEBUG (ASSERT/VERIFY macros off)"]
 ASSUMPTIONS = [
-    "HashMap<long,long> and HashSet<long> are covered (same harness, -DNV_HASHSET); PoolMap is not",
+    "HashMap<long,long>, HashSet<long> and PoolMap<unsigned long,long> are covered (same harness, -DNV_HASHSET / -DNV_POOLMAP)",
     "insert / find: the bucket chain of the key's bucket has at most 2 nodes (the find loop is unwound, no loop contract over chains of unbounded length); "
     "capacity 1 (every key collides) and 3; order list, free list and other buckets are arbitrary -- these two units are proofs relative to that chain bound",
     "remove(iterator): no bound (no loop)",
